@@ -97,6 +97,13 @@ def reads_of(fn):
         if isinstance(node, ast.Attribute) and isinstance(node.value, ast.Name) and node.value.id in names:
             if node.attr not in out:
                 out.append(node.attr)
+        # a module-level class constructed with the namespace: what its methods read through `self.<attr>.<dest>`
+        if isinstance(node, ast.Call) and isinstance(node.func, ast.Name) and node.func.id in CLASSES:
+            bind = ctx_bindings(CLASSES[node.func.id], node) or {}
+            held = [k for k, v in bind.items() if isinstance(v, ast.Name) and v.id in names]
+            for sub in ast.walk(CLASSES[node.func.id]):
+                if isinstance(sub, ast.Attribute) and _self_attr(sub.value) and sub.value.attr in held and sub.attr not in out:
+                    out.append(sub.attr)
     return out
 
 
@@ -122,17 +129,156 @@ def clause_info(h):
     return classes, reraise_on_debug, writes, exits
 
 
+# ---- error reporting through a context manager: `with Reporter(args, TABLE): <library call>` ---------------------
+CLASSES = {}    # module-level classes of cli.py
+
+
+def eval_pairs(node):
+    """a static table of (exception classes, message prefix) pairs: tuple/list displays, module-level names and `+`"""
+    if isinstance(node, ast.Name) and node.id in CONSTS:
+        return eval_pairs(CONSTS[node.id])
+    if isinstance(node, ast.BinOp) and isinstance(node.op, ast.Add):
+        a, b = eval_pairs(node.left), eval_pairs(node.right)
+        return None if a is None or b is None else a + b
+    if isinstance(node, (ast.Tuple, ast.List)):
+        out = []
+        for e in node.elts:
+            if isinstance(e, ast.Starred):
+                sub = eval_pairs(e.value)
+                if sub is None:
+                    return None
+                out += sub
+            elif isinstance(e, (ast.Tuple, ast.List)) and len(e.elts) == 2:
+                out.append(const_names(e.elts[0]))
+            else:
+                return None
+        return out
+    return None
+
+
+def _is_false(node):
+    return node is None or (isinstance(node, ast.Constant) and node.value in (False, None))
+
+
+def _self_attr(node, attr=None):
+    return (isinstance(node, ast.Attribute) and isinstance(node.value, ast.Name) and node.value.id == "self"
+            and (attr is None or node.attr == attr))
+
+
+def _count_effects(stmts):
+    writes, exits = 0, False
+    for node, _ in walk_inlined(ast.Module(body=stmts, type_ignores=[])):
+        if isinstance(node, ast.Call) and isinstance(node.func, ast.Attribute):
+            if node.func.attr == "write" and "stderr" in ast.dump(node.func):
+                writes += 1
+            if node.func.attr == "exit" and node.args and isinstance(node.args[0], ast.Constant) and node.args[0].value == 1:
+                exits = True
+    return writes, exits
+
+
+def ctx_bindings(cls, call):
+    """self attribute -> constructor argument expression, from `__init__`'s `self.X = param` statements"""
+    init = next((n for n in cls.body if isinstance(n, ast.FunctionDef) and n.name == "__init__"), None)
+    if init is None:
+        return None
+    params = [a.arg for a in init.args.args][1:]
+    bound = {}
+    for i, a in enumerate(call.args):
+        if i < len(params):
+            bound[params[i]] = a
+    for kw in call.keywords:
+        if kw.arg:
+            bound[kw.arg] = kw.value
+    out = {}
+    for st in init.body:
+        if isinstance(st, ast.Assign) and len(st.targets) == 1 and _self_attr(st.targets[0]) and isinstance(st.value, ast.Name):
+            if st.value.id in bound:
+                out[st.targets[0].attr] = bound[st.value.id]
+    return out
+
+
+def ctx_clauses(cls, call):
+    """the clause table a `with cls(...)` statement amounts to, or None when `__exit__` is not of the recognised shape:
+         [if exc is None: return False]
+         for classes, prefix in self.TABLE:
+             if isinstance(exc, classes):
+                 [if not self.ARGS.debug:]  write to stderr; sys.exit(1)
+                 break | return False
+         return False"""
+    bind = ctx_bindings(cls, call)
+    ex = next((n for n in cls.body if isinstance(n, ast.FunctionDef) and n.name == "__exit__"), None)
+    if bind is None or ex is None or len(ex.args.args) != 4:
+        return None
+    _, et, ev, _tb = [a.arg for a in ex.args.args]
+    args_attr = next((k for k, v in bind.items() if isinstance(v, ast.Name) and v.id == "args"), None)
+    body = [st for st in ex.body if not (isinstance(st, ast.Expr) and isinstance(st.value, ast.Constant))]
+    clauses = None
+    for st in body:
+        if isinstance(st, ast.If) and isinstance(st.test, ast.Compare) and len(st.test.ops) == 1 and isinstance(st.test.ops[0], ast.Is) \
+                and isinstance(st.test.left, ast.Name) and st.test.left.id in (et, ev) and _is_false(st.test.comparators[0]) \
+                and len(st.body) == 1 and isinstance(st.body[0], ast.Return) and _is_false(st.body[0].value) and not st.orelse:
+            continue
+        if isinstance(st, ast.Return) and _is_false(st.value):
+            continue
+        if isinstance(st, ast.For) and clauses is None and isinstance(st.target, ast.Tuple) and len(st.target.elts) == 2 \
+                and all(isinstance(e, ast.Name) for e in st.target.elts) and _self_attr(st.iter) and st.iter.attr in bind \
+                and not st.orelse and len(st.body) == 1 and isinstance(st.body[0], ast.If) and not st.body[0].orelse:
+            cn = st.target.elts[0].id
+            test = st.body[0].test
+            ok = (isinstance(test, ast.Call) and isinstance(test.func, ast.Name) and len(test.args) == 2
+                  and isinstance(test.args[1], ast.Name) and test.args[1].id == cn and isinstance(test.args[0], ast.Name)
+                  and ((test.func.id == "isinstance" and test.args[0].id == ev) or (test.func.id == "issubclass" and test.args[0].id == et)))
+            pairs = eval_pairs(bind[st.iter.attr])
+            if not ok or pairs is None:
+                return None
+            inner = list(st.body[0].body)
+            if not inner or not ((isinstance(inner[-1], ast.Return) and _is_false(inner[-1].value)) or isinstance(inner[-1], ast.Break)):
+                return None
+            inner = inner[:-1]
+            reraise = False
+            if len(inner) == 1 and isinstance(inner[0], ast.If) and not inner[0].orelse and isinstance(inner[0].test, ast.UnaryOp) \
+                    and isinstance(inner[0].test.op, ast.Not) and isinstance(inner[0].test.operand, ast.Attribute) \
+                    and inner[0].test.operand.attr == "debug" and _self_attr(inner[0].test.operand.value, args_attr):
+                reraise = True                      # with --debug nothing is written and the exception propagates
+                inner = inner[0].body
+            elif inner and isinstance(inner[0], ast.If) and not inner[0].orelse and isinstance(inner[0].test, ast.Attribute) \
+                    and inner[0].test.attr == "debug" and _self_attr(inner[0].test.value, args_attr) and len(inner[0].body) == 1 \
+                    and ((isinstance(inner[0].body[0], ast.Return) and _is_false(inner[0].body[0].value)) or isinstance(inner[0].body[0], ast.Break)):
+                reraise = True
+                inner = inner[1:]
+            if any(isinstance(n, (ast.Return, ast.Raise, ast.Break, ast.Continue, ast.If, ast.For, ast.While, ast.Try, ast.With))
+                   for s2 in inner for n in ast.walk(s2)):
+                return None
+            writes, exits = _count_effects(inner)
+            clauses = [(classes, reraise, writes, exits) for classes in pairs]
+            continue
+        return None
+    return clauses
+
+
+def ctx_call(node):
+    if isinstance(node, ast.With) and len(node.items) == 1 and isinstance(node.items[0].context_expr, ast.Call) \
+            and isinstance(node.items[0].context_expr.func, ast.Name) and node.items[0].context_expr.func.id in CLASSES:
+        return node.items[0].context_expr
+    return None
+
+
 def tries_of(fn):
     out = []
     for node in fn.body:
         if isinstance(node, ast.Try):
             out.append([clause_info(h) for h in node.handlers])
+        elif isinstance(node, ast.With):
+            call = ctx_call(node)
+            cl = ctx_clauses(CLASSES[call.func.id], call) if call is not None else None
+            out.append(cl if cl is not None else [(["UNKNOWN"], False, 0, False)])
     return out
 
 
 cli = ast.parse(open(os.path.join(REPO, "jsonpath", "cli.py")).read())
 fns = {n.name: n for n in cli.body if isinstance(n, ast.FunctionDef)}
 FNS.update(fns)
+CLASSES.update({n.name: n for n in cli.body if isinstance(n, ast.ClassDef)})
 for n in cli.body:
     if isinstance(n, ast.Assign) and len(n.targets) == 1 and isinstance(n.targets[0], ast.Name):
         CONSTS[n.targets[0].id] = n.value
@@ -162,7 +308,7 @@ for cmd in ("path", "pointer", "patch"):
               dests_of(fns.get("setup_parser", ast.parse("def f(): pass").body[0]),
                        skip=("path_sub_command", "pointer_sub_command", "patch_sub_command")))
     h = fns.get("handle_%s_command" % cmd)
-    emit_strs("cli_%s_reads" % cmd, reads_of(h) if h else ["UNKNOWN"])
+    emit_strs("cli_%s_reads" % cmd, sorted(reads_of(h)) if h else ["UNKNOWN"])
     tries = tries_of(h) if h else []
     items = []
     for t in tries:
